@@ -19,7 +19,11 @@ SPEC = {
         "extended on a miss; a vector that is only appended to), Rc sharing of cached objects (cached Coverage / "
         "ClassDef / lookup objects are immutable), the abstraction of a GSUB table to (features, scripts, "
         "FeatureVariations records) and of a Font to (Unicode cmap, emoji set, table flags, which image tables parse)",
-        "for Font-level histories (kind F) and pure operations (kind P) the judge is model-independent: equality of "
+        "Model/GlyfTableMemo.v abstracts a glyf table to a list of raw / parsed records, a glyph to empty / simple "
+        "(opaque) / composite (component indices), drawing to the list of simple glyphs reached (transforms left out); "
+        "tr_caches.py checks on every run that glyf/outline.rs writes to the table only through get_parsed_glyph and "
+        "reads COMPOSITE_GLYPH_RECURSION_LIMIT",
+        "for Font-level histories (kind F), GlyfTable histories (kind T) and pure operations (kind P) the judge is model-independent: equality of "
         "digests (FNV-1a 64 of the Debug rendering / output bytes) computed by the harness",
     ],
     "assumptions": [
@@ -29,8 +33,10 @@ SPEC = {
         "scopes given to read_cache are suffix scopes of one table (checked syntactically at all 26 call sites): "
         "the base offset determines the bytes",
         "FontTableProvider::table_data returns the same bytes for the same tag on every call",
+        "GlyfTable: records_mut / push / take / replace (explicit writes by the caller, as variations::apply_gvar does) "
+        "are not queries; the histories use visit, get_parsed_glyph, subset, write_dep, number_of_points",
     ],
-    "rule": "four kinds of generated cases. L (35%): a synthesised GSUB 1.1 table (1-7 features, 0-3 scripts with "
+    "rule": "five kinds of generated cases. L (30%): a synthesised GSUB 1.1 table (1-7 features, 0-3 scripts with "
             "default / tagged LangSys records incl. a record tagged DFLT, 0-3 FeatureVariations records with axis-range "
             "conditions and feature-table substitutions; 1 in 8 with out-of-range indices; 1 in 3 shaped like real "
             "variable fonts: rvrn in every LangSys and substitutions for it) and 1-8 get_lookups_cache_index / "
@@ -38,15 +44,25 @@ SPEC = {
             "masks and tuples so that keys repeat with one argument changed; each call is run on one LayoutCache and "
             "on a fresh one and both are compared with the extracted model. G (20%): a synthesised font (cmap 12, "
             "optional glyf/CFF, valid or truncated SVG/sbix/CBDT/EBDT tables) and 1-8 lookup_glyph_index / "
-            "set_embedded_image_filter / has_embedded_images / shape calls, same comparison. F (40%): one real Font "
+            "set_embedded_image_filter / has_embedded_images / shape calls, same comparison. F (35%): one real Font "
             "(22 fixture fonts covering Latin, Arabic, Syriac, Devanagari, Bengali, Tamil, Khmer, Myanmar, Thai, Lao, "
             "CJK with vmtx, symbol cmap, sbix, SVG, 5 variable fonts; or a synthesised variable font with GSUB "
             "FeatureVariations) driven through 0-5 calls of shape (text, script, language, Features::Mask|Custom, "
             "tuple, kerning, presentation), map_glyphs, lookup_glyph_index, horizontal/vertical_advance, glyph_names, "
             "lookup_glyph_image, set_embedded_image_filter, has_embedded_images, table getters, then a probe; the "
             "probe's full result is compared with the probe on a fresh Font in the same configuration and with a "
-            "second probe on the same object. P (5%): subset / instance / WOFF-WOFF2 decode / table_tags / whole_font run twice "
+            "second probe on the same object. T (10%): a synthesised glyf/loca pair (empty / simple glyphs in the writer's own and "
+            "a compact encoding / composites with indices in range, out of range, upwards and cyclic / glyphs whose data "
+            "is cut off; chains whose nesting straddles COMPOSITE_GLYPH_RECURSION_LIMIT = 6, DAGs with shared components), "
+            "read lazily or parsed up front, and 1-5 calls of OutlineBuilder::visit / GlyfTable::subset + write_dep / "
+            "write_dep of a copy / get_parsed_glyph / number_of_points on ONE table followed by a probe; every call is "
+            "repeated on a freshly read table and the probe twice (written tables are compared glyph by glyph after "
+            "re-reading, byte for byte when every glyph is in the writer's encoding); the results of visit / "
+            "get_parsed_glyph on the fresh table are compared with the extracted model. F also: synthesised GSUB tables "
+            "larger than 64 KiB (Extension lookups whose subtables and Coverage tables lie 65536 / 131072 / 196608 / "
+            "65534 / 65538 / 32768 / 4096 / 256 / 12 bytes apart, one feature per lookup; the history shapes with some "
+            "features, the probe with another). P (5%): subset / instance / WOFF-WOFF2 decode / table_tags / whole_font run twice "
             "in-process (1 in 12 the second run in a child process), outputs compared byte for byte. distinct = "
             "distinct input lines; histogram keys are kind, number of calls (L/G: and whether an error occurred), "
-            "for F the probe type, syn/fixture and history length",
+            "for F the probe type, syn/fixture and history length, for T lazy/parsed, the probe type and history length",
 }
